@@ -517,7 +517,16 @@ where
         {
             use d_engine_core::client::ClientApiError;
             use d_engine_core::config::ReadConsistencyPolicy;
-            if let Some(ref policy) = core_req.consistency_policy
+            // The fast path is keyed on the policy the read is actually served under: the
+            // client's choice only when the server allows per-request overrides, otherwise
+            // the server default (same resolution as `LeaderState::determine_read_policy`).
+            let read_consistency = &self.node_config.raft.read_consistency;
+            let effective_policy = if read_consistency.allow_client_override {
+                core_req.consistency_policy.clone()
+            } else {
+                Some(read_consistency.default_policy.clone())
+            };
+            if let Some(ref policy) = effective_policy
                 && matches!(
                     policy,
                     ReadConsistencyPolicy::EventualConsistency | ReadConsistencyPolicy::LeaseRead
